@@ -110,6 +110,20 @@ CHECKS = {
         "documented), huge pages, debug assertions after an error. The debug build runs detection clauses only.",
    technique="Coq proof over an executable byte-level page model + extraction-based differential replay (two hardened builds) + attack oracle",
    design="3/C17"),
+ "C14": dict(
+   text="Machine-checked proof (Coq 8.16.1) over an executable model of src/bitmap.c as used for arena blocks_inuse. (1) Interleaving: one transition "
+        "per atomic access of _mi_bitmap_try_find_from_claim_across (single-field CAS loop, scan-ahead, initial/intermediate/final CAS, three rollback "
+        "shapes, retries), _mi_bitmap_unclaim_across and the purger's try_claim/unclaim; for any number of threads, programs and schedules the bitmap "
+        "is the disjoint union of pre-claimed bits, completed claims and partial claims (reachable s -> Inv s); completed claims are disjoint and in "
+        "range; a failed claim leaves nothing; purger claims are exclusive; all freed => initial bitmap. (2) Sequential: success sets exactly count "
+        "previously-zero bits in range, failure changes nothing, unclaim restores, unit claims fill any bitmap / a fresh arena exactly, claims of <=2 "
+        "bits are complete within a field. The clause 'can be allocated completely again' is proved for requests of <=2 blocks and REFUTED for "
+        "multi-block requests (known finding multiblock-top-bit, witness replayed on the real arena).",
+   note="Trusted: Coq kernel + vm_compute, extraction, harness and drivers. The model is tied to the code by about 8*10^4 bit-exact function records per "
+        "run and by multi-threaded implementation oracles (pthread stress on the raw functions with a shadow owner map; real arenas of 40..130 blocks); "
+        "not by schedule-lockstep replay of the atomic steps. Sequentially consistent interleaving; counts < 2^64-64; a claim is freed at most once.",
+   technique="Coq invariant proof of a small-step interleaving model + sequential specs + differential and multi-threaded implementation oracles",
+   design="3/C14"),
 }
 NOT_YET = {}
 def main():
